@@ -4,8 +4,9 @@
 //! copy, the document re-reads to a dataset isomorphic to the input labelled c14n0..c14n(n-1), the
 //! identifier map is a bijection mapping the input onto the returned quads, and equality with an
 //! independent transcription of the W3C text (c05_common).  Every third case is a dataset of near-identical
-//! quads or of parallel edges; stores include one that yields in insertion order, and the same quads are
-//! canonicalised in many insertion orders; the entry points with default limits, short-write and failing
+//! quads or of parallel edges, every sixth one has sibling nodes related to one other node through several quads that
+//! differ by predicate / graph / direction (Hash Related Blank Node asked several times about one node); stores include one that yields in insertion order, and the same quads are
+//! canonicalised in many insertion orders (the quads of every sibling permuted independently); the entry points with default limits, short-write and failing
 //! writers, a failing dataset and the Term view of the returned quads are driven too (c05_common).
 #[path = "c05_common/mod.rs"]
 mod c05_common;
